@@ -638,3 +638,68 @@ Proof.
     exact Hat. }
   rewrite (de_u32_pad_at _ _ _ n Hn' Hn). reflexivity.
 Qed.
+
+(* ---------- array of strings ---------- *)
+Fixpoint tail_strs (e : endian) (n : N) (l : list bytes) : bytes :=
+  match l with
+  | [] => []
+  | s :: r => zeros (padding n 4) ++ enc_s e s ++ tail_strs e (n + padding n 4 + len (enc_s e s)) r
+  end.
+Lemma enc_strs_tail e : forall l acc, enc_strs e acc l = acc ++ tail_strs e (len acc) l.
+Proof.
+  induction l as [|s r IH]; intros acc; cbn [enc_strs tail_strs]; [rewrite app_nil_r; reflexivity|].
+  rewrite IH. unfold pad4. rewrite !len_app, len_zeros. rewrite <- !app_assoc. reflexivity.
+Qed.
+Lemma len_enc_s e s : len (enc_s e s) = 4 + len s + 1.
+Proof. unfold enc_s. rewrite !len_app, len_u32. change (len [x00]) with 1. lia. Qed.
+
+Lemma de_strs_tail e b : forall l fuel pos n acc, Forall dstr l -> (pos - n) mod 4 = 0 -> n <= pos ->
+  at_pos b pos (tail_strs e n l) -> (length l < fuel)%nat ->
+  de_strs fuel e b (pos + len (tail_strs e n l)) pos acc = Ok (rev acc ++ l).
+Proof.
+  induction l as [|s r IH]; intros fuel pos n acc Hall Hmod Hle Hat Hf.
+  - cbn [tail_strs]. change (len []) with 0. rewrite N.add_0_r. destruct fuel; cbn [de_strs]; rewrite N.eqb_refl, app_nil_r; reflexivity.
+  - inversion Hall as [|? ? (Hz & Hu & Hl) Hr]; subst. destruct fuel as [|fuel]; [cbn in Hf; lia|].
+    cbn [tail_strs] in *. assert (Hp : padding pos 4 = padding n 4) by (unfold padding; lia).
+    rewrite <- Hp in *.
+    pose proof (padding_aligned pos 4 ltac:(lia)) as Hal.
+    apply at_pos_app in Hat. destruct Hat as [H0 Hat]. rewrite len_zeros in Hat.
+    apply at_pos_app in Hat. destruct Hat as [Hs Hat]. rewrite len_enc_s in Hat.
+    cbn [de_strs]. rewrite !len_app, len_zeros, len_enc_s.
+    replace (pos =? _) with false by lia.
+    rewrite (parse_padding_at' b pos 4 H0). cbn [bind]. unfold enc_s in Hs.
+    rewrite (de_str_wide_at e b _ s Hs Hal Hl Hz Hu). cbn [bind].
+    replace (_ <? _) with false by lia.
+    specialize (IH fuel (pos + padding pos 4 + (4 + len s + 1)) (n + padding pos 4 + len (enc_s e s)) (s :: acc) Hr).
+    rewrite len_enc_s in IH.
+    replace (pos + (padding pos 4 + (4 + len s + 1 + len (tail_strs e (n + padding pos 4 + (4 + len s + 1)) r))))
+      with (pos + padding pos 4 + (4 + len s + 1) + len (tail_strs e (n + padding pos 4 + (4 + len s + 1)) r)) by lia.
+    replace (pos + padding pos 4 + 4 + len s + 1) with (pos + padding pos 4 + (4 + len s + 1)) by lia.
+    rewrite IH; [cbn [rev]; rewrite <- app_assoc; reflexivity| | |exact Hat|cbn [length] in Hf; lia].
+    + replace (pos + padding pos 4 + (4 + len s + 1) - (n + padding pos 4 + (4 + len s + 1))) with (pos - n) by lia. exact Hmod.
+    + lia.
+Qed.
+
+Lemma tail_strs_len e l : forall n, N.of_nat (length l) <= len (tail_strs e n l).
+Proof.
+  induction l as [|s r IH]; intros n; [cbn; lia|].
+  cbn [tail_strs length]. rewrite !len_app, len_enc_s. specialize (IH (n + padding n 4 + (4 + len s + 1))). lia.
+Qed.
+
+Theorem typed_as h nfds l : Forall dstr l -> len (enc_as (h_endian h) l) < two32 ->
+  let bd := enc_as (h_endian h) l in
+  let g := SArray SStr in
+  dec_typed (ShAS l) (h_endian h) (spec_message h g bd nfds) (body_offset_of h g bd nfds) nfds = Ok (TAS l).
+Proof.
+  intros Hall Hlen bd g. pose proof (body_at h g bd nfds) as Hat. pose proof (body_offset_aligned h g bd nfds) as Hal.
+  set (off := body_offset_of h g bd nfds) in *. set (b := spec_message h g bd nfds) in *.
+  subst bd. unfold enc_as in *. rewrite enc_strs_tail in *. cbn [app] in *. change (len []) with 0 in *.
+  rewrite len_app, len_u32 in Hlen.
+  apply at_pos_app in Hat. destruct Hat as [Hn Hat]. rewrite len_u32 in Hat.
+  cbn [dec_typed]. rewrite (de_u32_at' _ b off _ Hn) by (lia || (unfold two32 in *; lia)). cbn [bind].
+  rewrite parse_padding_aligned by lia. cbn [bind].
+  rewrite (de_strs_tail (h_endian h) b l (S (length b)) (off + 4) 0 [] Hall); [reflexivity| | |exact Hat|].
+  - replace (off + 4 - 0) with (off + 4) by lia. lia.
+  - lia.
+  - apply at_pos_len in Hat. pose proof (tail_strs_len (h_endian h) l 0). unfold len in *. lia.
+Qed.
